@@ -287,16 +287,25 @@ fn main() {
                 }
                 // without the bump context the date falls back to the *tagged commit's* commit time (t0), not to the time an
                 // annotated tag object was written (40 days later in these repositories)
+                // ... whatever the tag is called: names that are themselves calendar dates (the day after the tagged commit, the
+                // same day, far in the future), that contain the commit time as a number, or that carry a pre-release
                 if matches!(head, Head::Branch(_)) {
                     let c0 = cal::civil(t0);
+                    let next = cal::civil(t0 + 86_400);
+                    let names: Vec<String> = vec!["v0.0.7".into(), format!("v{}.{}.{}", next.year, next.month, next.day), format!("{}.{:02}.{:02}", next.year, next.month, next.day), format!("v{}.{}.{}", c0.year, c0.month, c0.day),
+                        "v2099.12.31".into(), "v9999.12.31".into(), format!("v{t0}.0.0"), format!("v{}.{}.{}-rc.1", next.year, next.month, next.day), format!("v{}{:02}{:02}.0.0", next.year, next.month, next.day), "v1970.1.1".into()];
+                    for (ni, tag_name) in names.iter().enumerate() {
+                    repo.set_tags(&[Tag { name: tag_name.clone(), target: 0, annotated: (ti + ni) % 2 == 0 }]);
                     for preset in ["calver-base", "calver"] { for fmt in ["semver", "pep440"] {
                         st.inc("git_calver_evaluations");
                         let args = ["version", "-C", &dir, "--schema", preset, "--no-bump-context", "--output-format", fmt];
                         match zv::run_cli(&args, None) {
-                            Ok(Res::Ok(out)) => { let want = format!("{}.{}.{}", c0.year, c0.month, c0.day); if !out.starts_with(&want) { ctx.violation("git_calver_tag_time_fallback_mismatch", format!("git {preset} --no-bump-context [{fmt}] tag commit time {t0}"), json!({"kind":"git-calver-fallback","t":t0,"preset":preset}), format!("printed {out:?}, the tagged commit's UTC date is {want}")); } }
+                            Ok(Res::Ok(out)) => { let want = format!("{}.{}.{}", c0.year, c0.month, c0.day); if !out.starts_with(&want) { ctx.violation("git_calver_tag_time_fallback_mismatch", format!("git {preset} --no-bump-context [{fmt}] tag {tag_name} tag commit time {t0}"), json!({"kind":"git-calver-fallback","t":t0,"preset":preset}), format!("printed {out:?}, the tagged commit's UTC date is {want}")); } }
                             other => ctx.violation("calver_failed", format!("git {preset} --no-bump-context @ {t0}"), json!({"kind":"git-calver-fallback","t":t0}), format!("{other:?}")),
                         }
                     }}
+                    }
+                    repo.set_tags(&[Tag { name: "v0.0.7".into(), target: 0, annotated: ti % 2 == 0 }]);
                 }
                 for p in cal::PATTERNS {
                     st.inc("git_pattern_evaluations");
